@@ -204,3 +204,87 @@ class Check(object):
                     print("    path: %s" % p)
             return 2
         return 1 if unlisted else 0
+
+
+# ----------------------------------------------------------------------
+# running independent explorations of one check in parallel (fork)
+# ----------------------------------------------------------------------
+def _export(chk):
+    import json as _json
+    def plain(x):
+        return _json.loads(_json.dumps(x, default=str))
+    return {
+        "obligations": chk.obligations, "discharged": chk.discharged,
+        "findings": [(f.rule, f.function, f.witness, f.text, f.file, f.line, f.stmt, list(f.path), f.imprecise)
+                     for f in chk.findings],
+        "imprecise": [(f.rule, f.function, f.witness, f.text, f.file, f.line, f.stmt, list(f.path), True)
+                      for f in chk.imprecise],
+        "samples": plain(chk.samples), "assumptions": list(chk.assumptions),
+        "rules": plain(chk.rules),
+        "counters": {k: (sorted(v) if isinstance(v, set) else v) for k, v in chk.counters.items()},
+        "nontrivial": [repr(x) for x in chk.nontrivial], "notes": list(chk.notes),
+    }
+
+
+def _merge(chk, d):
+    chk.obligations += d["obligations"]
+    chk.discharged += d["discharged"]
+    for t in d["findings"]:
+        f = Finding(t[0], t[1], t[2], t[3], t[4], t[5], t[6], t[7], t[8])
+        if f.key() not in [x.key() for x in chk.findings]:
+            chk.findings.append(f)
+    for t in d["imprecise"]:
+        chk.imprecise.append(Finding(t[0], t[1], t[2], t[3], t[4], t[5], t[6], t[7], True))
+    for s in d["samples"]:
+        if sum(1 for x in chk.samples if x.get("rule") == s.get("rule")) < 3:
+            chk.samples.append(s)
+    for a in d["assumptions"]:
+        if a not in chk.assumptions:
+            chk.assumptions.append(a)
+    for rid, r in d["rules"].items():
+        cur = chk.rules.setdefault(rid, {"instances": 0, "obligations": 0, "discharged": 0, "what": r.get("what", "")})
+        for k in ("instances", "obligations", "discharged"):
+            cur[k] += r[k]
+        if not cur.get("what"):
+            cur["what"] = r.get("what", "")
+    for k, v in d["counters"].items():
+        if isinstance(chk.counters.get(k), set):
+            chk.counters[k].update(v)
+        else:
+            chk.counters[k] = chk.counters.get(k, 0) + v
+    chk.nontrivial.update(d["nontrivial"])
+    chk.notes.extend(n for n in d["notes"] if n not in chk.notes)
+
+
+def _worker(args):
+    fn, prop, tier, fargs = args
+    from .index import AnalysisError, get_index
+    sub = Check(prop, tier)
+    try:
+        fn(sub, get_index(), *fargs)
+        return ("ok", _export(sub))
+    except AnalysisError as e:
+        return ("analysis-error", str(e))
+    except Exception as e:      # noqa
+        import traceback
+        return ("analysis-error", "internal error of the checker: %s\n%s" % (e, traceback.format_exc()))
+
+
+def run_parallel(chk, tasks):
+    """tasks: list of (function(chk, ix, *args), args).  Each runs in a forked worker
+    with its own Check; results are merged.  Sequential when VERIF_JOBS=1."""
+    import multiprocessing as mp
+    from .index import AnalysisError, get_index
+    jobs = int(os.environ.get("VERIF_JOBS", "0") or 0) or min(len(tasks), os.cpu_count() or 1)
+    get_index()     # parse once, workers inherit it
+    payload = [(fn, chk.prop, chk.tier, tuple(a)) for (fn, a) in tasks]
+    if jobs <= 1 or len(tasks) <= 1:
+        results = [_worker(p) for p in payload]
+    else:
+        ctx = mp.get_context("fork")
+        with ctx.Pool(jobs) as pool:
+            results = pool.map(_worker, payload, chunksize=1)
+    for status, data in results:
+        if status != "ok":
+            raise AnalysisError(data)
+        _merge(chk, data)
